@@ -106,6 +106,16 @@ type LockInv struct {
 	Src     string
 }
 
+// WriteGuard: every store to T.f (in a function that opts in with `checks-writeguards`)
+// must satisfy E over `self` (the object written).
+type WriteGuard struct {
+	PkgPath string
+	Struct  string
+	Field   string
+	E       SExpr
+	Src     string
+}
+
 type SharedDecl struct {
 	PkgPath string
 	Struct  string // "" for package-level var
@@ -113,18 +123,19 @@ type SharedDecl struct {
 }
 
 type Contracts struct {
-	Funcs    map[string]*FuncContract // full key -> contract
-	Ifaces   map[string]*FuncContract // "<pkgpath>.<Iface>.<Method>"
-	Ghosts   map[string]*GhostFunc
-	Axioms   []*Axiom
-	Guards   []*GuardDecl
-	Shared   []*SharedDecl
-	LockInvs []*LockInv
-	Pure     map[string]bool // full function string
-	PurePkg  map[string]bool
-	Imports  map[string]map[string]string // pkgpath -> alias -> import path
-	Problems []string
-	Files    []string
+	Funcs       map[string]*FuncContract // full key -> contract
+	Ifaces      map[string]*FuncContract // "<pkgpath>.<Iface>.<Method>"
+	Ghosts      map[string]*GhostFunc
+	Axioms      []*Axiom
+	Guards      []*GuardDecl
+	Shared      []*SharedDecl
+	LockInvs    []*LockInv
+	WriteGuards []*WriteGuard
+	Pure        map[string]bool // full function string
+	PurePkg     map[string]bool
+	Imports     map[string]map[string]string // pkgpath -> alias -> import path
+	Problems    []string
+	Files       []string
 }
 
 func newContracts() *Contracts {
@@ -340,6 +351,25 @@ func (cs *Contracts) parseContractFile(path, pkgPath string) error {
 			}
 			cs.Guards = append(cs.Guards, g)
 			return
+		case "writeguard":
+			// writeguard T.f: E
+			i := strings.Index(rest, ":")
+			if i < 0 {
+				problem(ln, "writeguard: want `writeguard T.f: E`")
+				return
+			}
+			tm := strings.Split(strings.TrimSpace(rest[:i]), ".")
+			if len(tm) != 2 {
+				problem(ln, "writeguard: want T.f")
+				return
+			}
+			e, err := parseSpec(rest[i+1:])
+			if err != nil {
+				problem(ln, "%v", err)
+				return
+			}
+			cs.WriteGuards = append(cs.WriteGuards, &WriteGuard{PkgPath: pkgPath, Struct: tm[0], Field: tm[1], E: e, Src: strings.TrimSpace(rest[i+1:])})
+			return
 		case "lockinv":
 			// lockinv T.mu: E   (E over `self`): holds whenever the mutex is free; assumed at acquisition, proved at release
 			i := strings.Index(rest, ":")
@@ -499,7 +529,7 @@ func (cs *Contracts) parseContractFile(path, pkgPath string) error {
 			}
 			h.Label, h.E = c.Label, c.E
 			cur.Hooks = append(cur.Hooks, h)
-		case "nopanic", "models-panics", "trusted", "deterministic", "arith-checked", "readonly-receiver", "order-insensitive":
+		case "nopanic", "models-panics", "trusted", "deterministic", "arith-checked", "readonly-receiver", "order-insensitive", "checks-writeguards":
 			cur.Flags[word] = true
 		default:
 			problem(ln, "unknown clause %q", word)
